@@ -811,11 +811,27 @@ def has_is_barevar(t):
     return any(has_is_barevar(x) for x in t[2])
 
 
+def _contains_atom_or_functor(t, name):
+    if t[0] == "atom": return t[1] == name
+    if t[0] == "cmp": return t[1] == name or any(_contains_atom_or_functor(x, name) for x in t[2])
+    return False
+
+
+def has_naf_disj_cut(t):
+    """\\+ over a goal that contains both a disjunction and a cut, e.g. \\+ (! ; X = X) (with a variable first seen inside, the
+    cut variable of the inlined \\+ is never allocated: CutPrev reads perm slot 0 and panics)"""
+    if t[0] != "cmp":
+        return False
+    if t[1] == "\\+" and len(t[2]) == 1 and _contains_atom_or_functor(t[2][0], "!") and _contains_atom_or_functor(t[2][0], ";"):
+        return True
+    return any(has_naf_disj_cut(x) for x in t[2])
+
+
 def panic_key(prog, q, msg):
+    if "subtract with overflow" in msg and any(has_naf_disj_cut(t) for t in [q] + [b for _, b in prog]):
+        return "naf-over-disjunction-with-cut-panics-subtract-overflow"
     if any(has_is_barevar(t) for t in [q] + [b for _, b in prog]) and ("crash" in msg or "evaluable" in msg):
         return "is-with-bare-permanent-variable-rhs-reads-garbage-or-segfaults"
-    if uses_char_lists(prog, q):
-        return "one-char-atom-list-compact-string-panic"
     return "panic:" + msg[:48]
 
 
@@ -851,9 +867,6 @@ def _foreign_atoms(prog, q, answers):
 
 def failure_key(prog, q, obs=None):
     ts = [q] + [b for _, b in prog]
-    if obs is not None and obs[0] == "ok" and uses_char_lists(prog, q) and \
-            (any(_non_ascii(a) for a in obs[1]) or _foreign_atoms(prog, q, obs[1])):
-        return "one-char-atom-list-compact-string-corruption"
     if obs is not None and obs[0] == "ok" and obs[2] is not None and any(has_is_barevar(t) for t in ts) and \
             obs[2][0] == "cmp" and obs[2][1] == "error" and obs[2][2][0][0] == "cmp" and obs[2][2][0][1] == "type_error" and \
             obs[2][2][0][2][0] == ("atom", "evaluable"):
@@ -862,8 +875,6 @@ def failure_key(prog, q, obs=None):
         return "cut-in-if-then-else-condition-is-not-local"
     if any(has_const_compare(t) for t in ts):
         return "arithmetic-comparison-with-compound-operand-clobbers-argument-registers"
-    if any(has_char_list(t) for t in [q] + [h for h, _ in prog] + [b for _, b in prog]):
-        return "one-char-atom-list-compact-string-corruption"
     if any(has_tail_elem_share(h) for h, _ in prog):
         return "clause-head-partial-list-with-tail-variable-as-element-loses-sharing"
     return "answers-differ"
